@@ -35,3 +35,5 @@ def run(prog, rep):
     from ..rules import r_close as _rcr
     _rcr.run_release(prog, rep)
     _rk2.run_ctor_pairs(prog, rep)
+    from ..rules import r_io as _rio2s
+    _rio2s.run_strio(prog, rep)
